@@ -31,7 +31,7 @@ pub fn spec(id: &str) -> Option<CheckSpec> {
             engine: "sysim",
             level: "fault_enumeration",
             owns: &["content-integrity", "crash-read", "crash-atomicity", "fault-surface", "read-exact", "missing-content", "exists", "lookup"],
-            runs: (60, 1500),
+            runs: (120, 1500),
             rule: "a run = one write shape (entry point x size around the mmap threshold x chunking x declared size x flavour x cold/warm cache x address already present); inside it EVERY kill point (before each filesystem system call of the write) and, for each data-carrying call, torn lengths {0,1,len/2,len-1} (quick) / more (thorough) then kill are enumerated; evaluations counts simulated executions. After every executed system call every file named by it under content-v2 is re-hashed (I1); after the kill the whole content area is scanned and fresh readers of all flavours must see 'absent' or the exact bytes. Non-trivial = the kill landed after the temp file existed; distinct by hash of the normalised system-call trace. A third of the runs first make the publishing rename fail (EXDEV/EACCES/EIO/ENOSPC) and enumerate the kills of the error path; async victims run under a canonical-first, reverse or seeded-random schedule of their own pool threads (fixed per enumeration); some async victims drop one write future after a single poll and go on with other data",
             assumptions: A_SYS,
         },
